@@ -14,14 +14,14 @@
 (* reported before a's current iteration started.                          *)
 (***************************************************************************)
 EXTENDS TraceKit
-VARIABLES tid, l, cfg, reported, started, atstart, inflight, overlap, cronseen
+VARIABLES tid, l, cfg, reported, announced, started, atstart, inflight, overlap, cronseen
 Log == Traces[tid]
 Ev  == Log[l + 1]
 ToSet(sq) == {sq[k] : k \in 1..Len(sq)}
 Count(sq, x) == Cardinality({k \in 1..Len(sq) : sq[k] = x})
 OccName(o) == o[1] \o ToString(o[2])
 
-Init == RegInit /\ tid \in 1..NT /\ l = 0 /\ cfg = [x \in {} |-> 0] /\ reported = {} /\ started = [x \in {} |-> {}] /\ atstart = [x \in {} |-> {}] /\ inflight = {} /\ overlap = {} /\ cronseen = <<0, 0>>
+Init == RegInit /\ tid \in 1..NT /\ l = 0 /\ cfg = [x \in {} |-> 0] /\ reported = {} /\ announced = {} /\ started = [x \in {} |-> {}] /\ atstart = [x \in {} |-> {}] /\ inflight = {} /\ overlap = {} /\ cronseen = <<0, 0>>
 
 Trigs == DOMAIN cfg
 CondsOf(t) == ToSet(cfg[t].conds)
@@ -30,8 +30,11 @@ PerOcc(t) == Len(cfg[t].conds) = 1 \/ cfg[t].logic = "or"
 Next ==
   /\ l < Len(Log) /\ l' = l + 1 /\ UNCHANGED tid
   /\ LET e == Ev IN
-     CASE e.e = "config" -> cfg' = e.trigs /\ UNCHANGED <<reported, started, atstart, inflight, overlap, cronseen>>
-       [] e.e = "report" -> reported' = reported \cup {<<e.c, e.n>>} /\ UNCHANGED <<cfg, started, atstart, inflight, overlap, cronseen>>
+     CASE e.e = "config" -> cfg' = e.trigs /\ UNCHANGED <<reported, announced, started, atstart, inflight, overlap, cronseen>>
+       \* the call that records the occurrence has begun: a concurrent loop may see it from now on
+       [] e.e = "announce" -> announced' = announced \cup {<<e.c, e.n>>}
+                              /\ UNCHANGED <<cfg, reported, started, atstart, inflight, overlap, cronseen>>
+       [] e.e = "report" -> reported' = reported \cup {<<e.c, e.n>>} /\ UNCHANGED <<cfg, announced, started, atstart, inflight, overlap, cronseen>>
        [] e.e = "iter_start" ->
             /\ started' = [x \in (DOMAIN started) \cup {e.a} |-> IF x = e.a THEN reported ELSE started[x]]
             \* what the store showed when the iteration started: pending occurrences, launches so far
@@ -40,9 +43,9 @@ Next ==
             \* iterations that overlap another one (its launches and clearing interleave with theirs)
             /\ inflight' = inflight \cup {e.a}
             /\ overlap' = IF inflight = {} THEN overlap \ {e.a} ELSE overlap \cup inflight \cup {e.a}
-            /\ UNCHANGED <<cfg, reported, cronseen>>
+            /\ UNCHANGED <<cfg, reported, announced, cronseen>>
        [] e.e = "iter_end" ->
-            /\ UNCHANGED <<cfg, reported, started, atstart, overlap>>
+            /\ UNCHANGED <<cfg, reported, announced, started, atstart, overlap>>
             /\ inflight' = inflight \ {e.a}
             \* cron: since the last quiet point, never more new launches than scheduled minutes that have begun
             /\ IF e.busy THEN UNCHANGED cronseen
@@ -51,7 +54,7 @@ Next ==
                               e.cron_launches - cronseen[1] <= e.cron_ticks - cronseen[2])
             /\ \A t \in Trigs :
                  IF PerOcc(t)
-                 THEN /\ \A o \in reported :
+                 THEN /\ \A o \in announced :
                            CheckD(tid, l + 1, "NeverTwice", t, OccName(o), Count(e.launched, <<t, OccName(o)>>) <= 1)
                       \* not zero times once an iteration has run (unless another loop is in the middle of it)
                       /\ \A o \in started[e.a] :
@@ -61,7 +64,7 @@ Next ==
                       /\ \A k \in 1..Len(e.launched) :
                            e.launched[k][1] = t =>
                               CheckD(tid, l + 1, "ArgsFromAnOccurrence", t, e.launched[k][2],
-                                     \E o \in reported : o[1] \in CondsOf(t) /\ OccName(o) = e.launched[k][2])
+                                     \E o \in announced : o[1] \in CondsOf(t) /\ OccName(o) = e.launched[k][2])
                  ELSE \* AND over several conditions
                       LET nl == Cardinality({k \in 1..Len(e.launched) : e.launched[k][1] = t})
                           n0 == Cardinality({k \in 1..Len(atstart[e.a].launched) : atstart[e.a].launched[k][1] = t})
@@ -70,7 +73,7 @@ Next ==
                       IN
                       \* never more launches than occurrences of every condition
                       /\ \A c \in CondsOf(t) :
-                           CheckD(tid, l + 1, "AndNeedsAll", t, c, nl <= Cardinality({o \in reported : o[1] = c}))
+                           CheckD(tid, l + 1, "AndNeedsAll", t, c, nl <= Cardinality({o \in announced : o[1] = c}))
                       \* an occurrence of every condition pending when the iteration started: it launches
                       /\ (~e.busy /\ ready /\ e.a \notin overlap) => CheckD(tid, l + 1, "AndLaunches", t, "", nl > n0)
                       \* and then consumes them
@@ -78,5 +81,5 @@ Next ==
                            \A o \in P0 : o[1] \in CondsOf(t) =>
                               CheckD(tid, l + 1, "AndConsumes", t, OccName(o), <<o[1], o[2]>> \notin {<<p[1], p[2]>> : p \in ToSet(e.pending)})
   /\ Reached(tid, l')
-Spec == Init /\ [][Next]_<<tid, l, cfg, reported, started, atstart, inflight, overlap, cronseen>>
+Spec == Init /\ [][Next]_<<tid, l, cfg, reported, announced, started, atstart, inflight, overlap, cronseen>>
 =============================================================================
